@@ -97,8 +97,8 @@ func (w *srvWalker) callees(nodes ...ast.Node) []string {
 }
 
 func (w *srvWalker) emit(depth int, kind string, nodes ...ast.Node) (int, string) {
-	label := kind + ":" + strings.Join(w.callees(nodes...), ",")
-	w.steps = append(w.steps, strconv.Itoa(depth)+" "+label)
+	label := strconv.Itoa(depth) + " " + kind + ":" + strings.Join(w.callees(nodes...), ",")
+	w.steps = append(w.steps, label)
 	return len(w.steps) - 1, label
 }
 
